@@ -21,14 +21,17 @@ RULE = ("sidecars with 1-5 columns of kinds {categorical, value, ignored, absent
         ">= 2 HED-bearing columns or a reference; distinct = distinct (sidecar, table)")
 ASSUMPTIONS = ["assembly model hedmon/gen/tables.py::model_row is written from the property text",
                "comparison is on unordered trees because the order of the pieces is not part of the property"]
-MIN_MONITOR_EVALS = {"row-equals-model": 1500, "well-formed": 1000, "repeatable": 300, "table-unchanged": 300,
+MIN_MONITOR_EVALS = {"sheet-row-equals-model": 500, "row-equals-model": 1500, "well-formed": 1000, "repeatable": 300, "table-unchanged": 300,
                      "sidecar-unchanged": 300, "skip-curly-view": 300, "row-with-reference": 200}
 VERSIONS = ["8.3.0", "8.2.0", "score_2.0.0"]
 
 
 def shards(tier, seed):
     n = {"quick": 1500, "thorough": 60000}[tier]
-    return [dict(n=100, stream=i, version=VERSIONS[(i // 100) % len(VERSIONS)]) for i in range(0, n, 100)]
+    out = [dict(n=100, stream=i, version=VERSIONS[(i // 100) % len(VERSIONS)]) for i in range(0, n, 100)]
+    m = {"quick": 300, "thorough": 6000}[tier]
+    out += [dict(kind="sheet", n=100, stream=i, version=VERSIONS[(i // 100) % len(VERSIONS)]) for i in range(0, m, 100)]
+    return out
 
 
 def frame_snapshot(df):
@@ -113,7 +116,96 @@ def check_case(case, rec):
         rec.violation("assembly changed the sidecar", case)
 
 
+def check_sheet(case, rec):
+    """SpreadsheetInput: tag columns taken as they are, prefix columns as value templates 'Prefix/#'."""
+    import pandas as pd
+    from hed.models.spreadsheet_input import SpreadsheetInput
+    cols, rows = case["columns"], case["rows"]
+    try:
+        if case["form"] == "frame":
+            src = pd.DataFrame(rows, columns=cols)
+            obj = SpreadsheetInput(src, tag_columns=case["tag_columns"], column_prefix_dictionary=case["prefixes"])
+        else:
+            text = "\t".join(cols) + "\n" + "\n".join("\t".join(c if c != "" else "n/a" for c in r) for r in rows) + "\n"
+            obj = SpreadsheetInput(io.StringIO(text), file_type=".tsv", tag_columns=case["tag_columns"],
+                                   column_prefix_dictionary=case["prefixes"])
+        before = frame_snapshot(obj.dataframe)
+        s1 = list(obj.series_a)
+        s2 = list(obj.series_a)
+        after = frame_snapshot(obj.dataframe)
+    except Exception as ex:  # noqa
+        rec.violation(f"spreadsheet assembly raised {type(ex).__name__}", case)
+        return
+    if len(s1) != len(rows):
+        rec.violation("assembly does not return one annotation per row", case)
+        return
+    for i, row in enumerate(rows):
+        cell = dict(zip(cols, row))
+        pieces = []
+        for c in cols:
+            v = cell[c]
+            if v in ("", "n/a"):
+                continue
+            if c in case["tag_columns"]:
+                pieces.append(v)
+            elif c in case["prefixes"]:
+                pre = case["prefixes"][c]
+                pieces.append((pre if pre.endswith("/") else pre + "/") + v)
+        want = hedparse.canon_text(", ".join(pieces))
+        rec.mon("sheet-row-equals-model")
+        if hedparse.canon_text(s1[i]) != want:
+            rec.violation("assembled spreadsheet row differs from tag columns plus prefixed value columns",
+                          dict(case, row=i, observed=s1[i]),
+                          key="value-empty-cell" if any(cell[c] == "" for c in case["prefixes"]) else None)
+        if s1[i] and not hedparse.delimiter_well_formed(s1[i]):
+            rec.violation("assembled spreadsheet row is not delimiter-well-formed", dict(case, row=i, observed=s1[i]))
+    if s1 != s2:
+        rec.violation("assembly gives a different answer when asked again", case)
+    if before != after:
+        rec.violation("assembly changed the table (values or dtypes)", case)
+
+
+def run_sheets(shard, rec):
+    rng = rec.rng
+    rng.seed(f"c06-sheet-{shard['stream']}-{rng.random()}")
+    gen = annot.AnnotGen(schema_xml.load(shard["version"]), rng)
+    for _ in range(shard["n"]):
+        gen.used = set()
+        try:
+            ntag = rng.randrange(1, 4)
+            tagcols = [f"tags{i}" for i in range(ntag)]
+            pre = {}
+            for j in range(rng.randrange(0, 3)):
+                node = rng.choice(gen.values)
+                pre[f"val{j}"] = node.name + rng.choice(["", "/"])
+            cols = tagcols + list(pre) + ["other"]
+            rng.shuffle(cols)
+            rows = []
+            for _r in range(rng.randrange(1, 6)):
+                row = []
+                for c in cols:
+                    q = rng.random()
+                    if c in tagcols:
+                        row.append("n/a" if q < 0.2 else ("" if q < 0.3 else
+                                   annot.render(gen.annotation(depth=2, temporal=False, size=rng.randrange(1, 3), reset=False), rng)))
+                    elif c in pre:
+                        row.append("n/a" if q < 0.2 else ("" if q < 0.3 else rng.choice(annot.WORDS)))
+                    else:
+                        row.append(rng.choice(["x", "1", "n/a"]))
+                rows.append(row)
+        except RuntimeError:
+            rec.discard()
+            continue
+        for form in ("frame", "tsv"):
+            case = dict(kind="sheet", columns=cols, rows=rows, tag_columns=tagcols, prefixes=pre, form=form)
+            rec.case((json.dumps(case, sort_keys=True)), nontrivial=len(tagcols) + len(pre) >= 2)
+            check_sheet(case, rec)
+
+
 def run_shard(shard, rec):
+    if shard.get("kind") == "sheet":
+        run_sheets(shard, rec)
+        return
     rng = rec.rng
     rng.seed(f"c06-{shard['stream']}-{rng.random()}")
     gen = annot.AnnotGen(schema_xml.load(shard["version"]), rng)
@@ -135,4 +227,7 @@ def run_shard(shard, rec):
 
 
 def replay(case, rec):
-    check_case(case, rec)
+    if case.get("kind") == "sheet":
+        check_sheet(case, rec)
+    else:
+        check_case(case, rec)
